@@ -337,6 +337,12 @@ def check_history(ctx, res, side, card, mode, hist, batch):
                                             'what': 'accepted %s left the request open (no END_STREAM on the wire)' % call,
                                             'signature': {'side': side, 'kind': 'accepted-step-not-performed'}})
                 break
+            if op == 'rt' and stt not in ('done', 'cut'):
+                res.oracle_failures.append({'case': case, 'observed': steps,
+                                            'what': 'recv_trailing_metadata accepted while the request is still open '
+                                                    '(not the next step of the exchange: the request was never ended)',
+                                            'signature': {'side': side, 'kind': 'accepted-step-out-of-order'}})
+                break
             if op == 'sr' and stt == 'init' or op == 'sm' and not any(x.startswith('D.') for x in sofar):
                 res.oracle_failures.append({'case': case, 'observed': steps,
                                             'what': 'accepted %s put nothing on the wire' % call,
